@@ -947,6 +947,13 @@ func (e *Engine) eval(fr *frame, st *State, in ssa.Value) AV {
 				}
 			}
 		}
+		if p, ok := e.val(fr, st, in.X).(avPtr); ok && p.o.label != "" {
+			k := p.o.label + p.path + "[" + avKey(e.val(fr, st, in.Index)) + "]"
+			if in.CommaOk {
+				return avTuple{avSym{tag: "val:" + k}, avSym{tag: "ok:" + k}}
+			}
+			return avSym{tag: "val:" + k}
+		}
 		if in.CommaOk {
 			return avTuple{e.NewSym("lookup"), e.NewSym("lookup-ok")}
 		}
